@@ -35,9 +35,14 @@ Cmds ==
   \cup {[op |-> "ZADD", k |-> k, ms |-> <<<<97>>>>, qs |-> <<4>>, nx |-> FALSE, xx |-> xx, gt |-> FALSE, lt |-> FALSE, ch |-> FALSE] : k \in K, xx \in BOOLEAN}
   \cup {[op |-> "ZREM", k |-> k, ms |-> <<<<97>>>>] : k \in K}
   \cup {[op |-> "ZRANGE", k |-> k, start |-> 0, stop |-> -1, ws |-> TRUE, rev |-> FALSE] : k \in K}
+  \cup {[op |-> "SETBIT", k |-> k, off |-> o, bit |-> bt] : k \in K, o \in {0, 9}, bt \in {0, 1}}
+  \cup {[op |-> "GETBIT", k |-> k, off |-> 9] : k \in K}
+  \cup {[op |-> "GETEX", k |-> k, mode |-> m, ms |-> ms] : k \in K, m \in {"none", "persist", "rel"}, ms \in {2, 0}}
+  \cup {[op |-> "SPOP", k |-> k, n |-> n] : k \in K, n \in {-1, 0, 2}}
+  \cup {[op |-> "RANDOMKEY", kb |-> <<<<"a", <<97>>>>, <<"b", <<98>>>>>>]}
 
 Init == st = [k \in {} |-> 0] /\ now = 0 /\ last = [c |-> [op |-> "PING", has |-> FALSE, v |-> <<>>], r |-> OK, changed |-> FALSE] /\ steps = 0
-Exec(c) == LET res == Do(c, st, now) IN
+Exec(c) == \E res \in DoAlts(c, st, now) :
            /\ st' = res.s /\ now' = now
            /\ last' = [c |-> c, r |-> res.r, changed |-> ~StateEq(Live(st, now), res.s)]
            /\ steps' = steps + 1
